@@ -337,3 +337,21 @@ def c02(run):
     pairs = drive_ops(run, "c02pairs")
     validate_trace(run, "CelOpTrace", pairs, sample_key=op_sample, nontrivial=lambda c: c["a"]["t"] != c["b"].get("t"),
                    what="host-side operator on two values: panic, or an outcome the value-level semantics does not allow")
+
+
+@check("C20")
+def c20(run):
+    run.rule = ("model: all programs with <=2 call nodes over typed host signatures, both call styles and 0..arity+1 arguments: the handler is invoked "
+                "(log entry) iff every extraction succeeds, with the converted values in order (machine = denotation); impl->spec: every zoo signature "
+                "(arity 0-9; raw, typed, receiver, all-arguments, identifier, with FunctionContext) x 0..arity+2 arguments x matching / one-mismatching kinds "
+                "x both styles; every receiver-style built-in x receivers and arguments of 11 kinds with x.f(a) and f(x, a) recorded side by side (must be equal); "
+                "built-ins overridden by host functions; non-trivial = has at least one argument or receiver")
+    mc_vectors(run, "CelEvalMC_C20")
+    run.exhaustive = True
+    table = run.work("c20_table.ndjson")
+    celconf(["c20-table", "--seed", run.seed, "--tier", run.tier, "--out", table])
+    validate_trace(run, "CelEvalTrace", table, nontrivial=lambda c: "()" not in c["src"],
+                   sample_key=lambda c: {"src": c["src"], "twin": c.get("twin", {}).get("src"), "log": c["log"], "out": c["out"].get("k"), "overrides": c.get("overrides")},
+                   what="call binding: what the host function received / the outcome differs from the specification (or x.f(a) differs from f(x, a))")
+    path = drive_eval(run, "c07", run.q(800, 20000), depth=run.q(4, 6))
+    validate_trace(run, "CelEvalTrace", path, nontrivial=lambda c: len(c.get("log", [])) >= 1)
